@@ -157,6 +157,27 @@ func c15API(c *Ctx, optName string, opts ...larking.MuxOption) {
 			}
 		}
 	}
+	// what the handler's FIRST receive itself returns when the client goes away while it is blocked there
+	firstRecv := func(fx *Fixture, ms *MethodSpec, st grpc.ServerStream) error {
+		done := make(chan error, 1)
+		go func() { done <- st.RecvMsg(fx.NewMsg("Req")) }()
+		select {
+		case err := <-done:
+			switch {
+			case err == nil:
+				released <- "first-receive-returned-a-message"
+				return nil
+			case err == io.EOF:
+				released <- "recv-eof"
+				return nil
+			}
+			released <- "recv-error"
+			return err
+		case <-time.After(4 * time.Second):
+			released <- "timeout"
+			return status.Error(codes.Internal, "not released")
+		}
+	}
 	blockSend := func(fx *Fixture, ms *MethodSpec, st grpc.ServerStream) error {
 		if err := st.RecvMsg(fx.NewMsg("Req")); err != nil {
 			released <- "recv-error"
@@ -248,6 +269,8 @@ func c15API(c *Ctx, optName string, opts ...larking.MuxOption) {
 		}},
 		{Name: "Block", In: "Req", Out: "Reply", Unary: blockUnary, Rule: postRule("/c15/block", "*")},
 		{Name: "BlockRecv", In: "Req", Out: "Reply", ClientStream: true, Stream: blockRecv, Rule: postRule("/c15/recv", "*")},
+		// an upload whose HTTP body is a google.api.HttpBody field: the first receive has its own code path
+		{Name: "BlockUpload", In: "Req", Out: "Reply", ClientStream: true, Stream: firstRecv, Rule: postRule("/c15/upload/{name}", "file")},
 		{Name: "BlockBidi", In: "Req", Out: "Reply", ClientStream: true, ServerStream: true, Stream: blockRecv},
 		{Name: "BlockSend", In: "Req", Out: "Reply", ServerStream: true, Stream: blockSend},
 	}, nil, opts...)
@@ -503,5 +526,20 @@ func c15API(c *Ctx, optName string, opts ...larking.MuxOption) {
 			continue
 		}
 		expectRelease("api-cancel", p.what, p.ok)
+	}
+	// … and while the handler is blocked in its FIRST receive of an HttpBody upload: before any body
+	// byte, and inside the first chunk (the announced chunk is longer than what arrives)
+	for _, sent := range []string{"", "14\r\n0123456789"} {
+		drain()
+		conn, err := net.Dial("tcp", addr)
+		if err != nil {
+			continue
+		}
+		fmt.Fprintf(conn, "POST /c15/upload/f HTTP/1.1\r\nHost: x\r\nContent-Type: application/octet-stream\r\nTransfer-Encoding: chunked\r\n\r\n%s", sent)
+		time.Sleep(50 * time.Millisecond)
+		conn.Close()
+		what := fmt.Sprintf("http-upload-disconnect-in-first-receive/%d-bytes-sent", len(sent))
+		c.Eval("api-cancel", what, true)
+		expectRelease("api-cancel", what, "recv-error")
 	}
 }
